@@ -113,8 +113,9 @@ class Unit:
     def __init__(self, id, fn, pre=None, post=None, replace=(), cfg='abacus', backends=('sat',), timeout=120,
                  tier='quick', cxx=None, note='', split=False, loop_contracts=None, ghost=None, extra_flags=(),
                  lemma=False, requires_extra=(), ensures_extra=(), no_canary=False, ub_only=False, unwind=None,
-                 object_bits=None, defines=(), link_src=False, expect_props=(), engine='bv', prelude='', replace_raw=(), needs=(), bounded=None):
+                 object_bits=None, defines=(), link_src=False, expect_props=(), engine='bv', prelude='', replace_raw=(), needs=(), bounded=None, native_post=None):
         self.engine = engine
+        self.native_post = native_post
         self.bounded = bounded
         self.needs = list(needs)
         self.prelude = prelude
